@@ -22,7 +22,7 @@ RULE = ("(a) seeded well-formed histories on 8 store configurations, each step f
         "read-only view (must be refused, snapshot unchanged) and every read through the view compared with the underlying "
         "store; (b) all keys of depth <= D over components {a, b.txt, ., .., '', __metadata__} with and without leading '/' "
         "(exhaustive: D=3 quick, 4 thorough) plus absolute keys pointing into the box x 13 store operations x routes "
-        "{direct, one-level mount, two-level mount, resource query}. Evaluations = operations monitored; non-trivial = key "
+        "{direct, direct with a relative root ('.', '', '../root'), one-level mount, two-level mount, resource query}. Evaluations = operations monitored; non-trivial = key "
         "contains '..', '', a leading '/' or the metadata folder name, or a mutator through the view; distinct = distinct "
         "(route, operation, key) / (configuration, history step, mutator).")
 ASSUMPTIONS = ["symbolic links are not part of the workload", "the box lives on /dev/shm; nothing outside it is ever addressed"]
@@ -177,6 +177,9 @@ def make_box(scratch, n):
     os.makedirs(os.path.join(box, "root", "a"))
     os.makedirs(os.path.join(box, "root", "__metadata__"))
     os.makedirs(os.path.join(box, "sibling"))
+    os.makedirs(os.path.join(box, "root_backup"))
+    open(os.path.join(box, "root_backup", "s.txt"), "wb").write(b"SENTINEL-BACKUP")
+    open(os.path.join(box, "rootx.txt"), "wb").write(b"SENTINEL-ROOTX")
     os.makedirs(os.path.join(box, "__metadata__"))
     for rel, data in (("outside.txt", b"SENTINEL-OUTSIDE"), ("sibling/s.txt", b"SENTINEL-SIBLING"), ("b.txt", b"SENTINEL-B"),
                       ("a", None), ("__metadata__/root.json", b'{"sentinel": "METADATA-OUTSIDE"}'),
@@ -241,6 +244,11 @@ def boundary_keys(depth, part, parts, sample, rnd, box):
                 if idx % parts == part and (sample >= 1.0 or rnd.random() < sample):
                     yield k
                 idx += 1
+    # siblings whose names share a textual prefix with the root directory's name
+    for k in ("../root_backup/s.txt", "../root_backup", "../rootx.txt", "a/../../root_backup/s.txt", "../root_backup/new.txt"):
+        if idx % parts == part:
+            yield k
+        idx += 1
     # absolute keys pointing into the box (never at real system paths)
     for rel in ("outside.txt", "sibling/s.txt", "sibling", "__metadata__/root.json", "root/../outside.txt"):
         if idx % parts == part:
@@ -263,7 +271,12 @@ def run_boundary(spec, out):
         box = make_box(scratch, nbox[0] % 4)
         root = os.path.join(box, "root")
         fs = FileStore(root)
-        if route == "direct":
+        if route == "direct_rel":
+            # the same root addressed relative to the working directory (also as '.')
+            os.chdir(root)
+            fs = FileStore(rnd.choice([".", "", os.path.join("..", "root")]))
+            st, k = fs, key
+        elif route == "direct":
             st, k = fs, key
         elif route == "mount1":
             st = MountPointStore()
@@ -292,6 +305,9 @@ def run_boundary(spec, out):
                     res = do_op(st, op, k)
             except BaseException as e:
                 exc = e
+            finally:
+                if route == "direct_rel":
+                    os.chdir(scratch)
             events = list(_B["events"])
         out["evaluations"] += 1
         out["counters"]["route." + route] = out["counters"].get("route." + route, 0) + 1
@@ -327,7 +343,7 @@ def run_boundary(spec, out):
         abs_key = key.startswith(scratch)
         for op in OPS:
             if rnd.random() < (0.5 if spec["sample"] < 1 else 1.0):
-                r = rnd.choice(["direct", "direct", "mount1", "mount2"])
+                r = rnd.choice(["direct", "direct", "mount1", "mount2", "direct_rel"])
                 k = key
                 if abs_key:
                     # rebuild the absolute key for the box the case will use
@@ -349,6 +365,11 @@ def run_readonly(spec, out):
     from lqv.checks.c07 import UNIVERSE
 
     scratch = spec["scratch"]
+
+    mode_rnd = random.Random("modes")
+
+    def rnd_mode():
+        return mode_rnd.choice(["r+b", "rb+", "r+", "w+b", "a+b", "xb"])
 
     def one_history(cfg, hist):
         built = storecfg.build(cfg, scratch)
@@ -386,6 +407,8 @@ def run_readonly(spec, out):
                     ("makedir", lambda: view.makedir(k_new)),
                     ("openbin_w", lambda: _write_through(view, k_new)),
                     ("openbin_wb_existing", lambda: _write_through(view, k_file, "wb")),
+                    ("openbin_update_existing", lambda: _write_through(view, k_file, rnd_mode())),
+                    ("openbin_append", lambda: _write_through(view, k_file, "ab")),
                     ("mount_then_store", lambda: _mount_then_store(view, k_new)),
                 ]
                 for name, fn in muts:
@@ -500,7 +523,7 @@ def replay(spec):
 
 def finalize(m, tier, seed):
     inc = []
-    for k in ("route.direct", "route.mount1", "route.mount2", "route.query", "mutator.openbin_w", "mutator.store", "reads_compared",
+    for k in ("route.direct", "route.direct_rel", "route.mount1", "route.mount2", "route.query", "mutator.openbin_update_existing", "mutator.openbin_w", "mutator.store", "reads_compared",
               "op.removedir_recursive", "op.openbin_w"):
         if not m["counters"].get(k):
             inc.append("coverage class %s empty" % k)
